@@ -915,3 +915,13 @@ func init() {
 	mutant("pending-body-error-sense-inverted", "nil-error-not-reported", "conn.go", "		if err != nil {\n			return err\n		}\n\n		if end {\n			return nil\n		}", "		if err == nil {\n			return err\n		}\n\n		if end {\n			return nil\n		}")
 	mutant("server-read-error-sense-inverted", "nil-error-not-reported", "serverConn.go", "			var h2err Error\n			if errors.As(err, &h2err) && h2err.frameType == FrameGoAway {", "			var h2err Error\n			if err == nil && errors.As(err, &h2err) && h2err.frameType == FrameGoAway {")
 }
+
+func init() {
+	mutant("frame-flushed-only-when-the-write-failed", "client-writes-are-flushed", "conn.go", "	_, err := fr.WriteTo(c.bw)\n	if err == nil {\n		if err = c.bw.Flush(); err != nil {", "	_, err := fr.WriteTo(c.bw)\n	if err != nil {\n		if err = c.bw.Flush(); err != nil {")
+	mutant("ping-never-flushed", "client-writes-are-flushed", "conn.go", "		err = c.bw.Flush()\n		if err == nil {\n			atomic.AddInt32(&c.unacks, 1)\n		}", "		atomic.AddInt32(&c.unacks, 1)")
+}
+
+func init() {
+	mutant("disconnect-callback-called-unset", "optional-callbacks-guarded", "conn.go", "	first, err := c.shut()\n\n	if first && c.onDisconnect != nil {", "	first, err := c.shut()\n\n	if first || c.onDisconnect != nil {")
+	mutant("netdial-called-unset", "optional-callbacks-guarded", "conn.go", "	if d.NetDial != nil {\n		c, err = d.NetDial(d.Addr)", "	if d.NetDial == nil {\n		c, err = d.NetDial(d.Addr)")
+}
